@@ -32,9 +32,62 @@ def o3 : Option Bool → String
 
 def PropRow.show (r : PropRow) : String := s!"{r.id}={o3 r.k}{b3 r.pm}{o3 r.pr}"
 
-/-- projection used for the correspondence of a property: the parts of the view it reads -/
-def projEq (mv rv : View) : Bool :=
-  decide (mv.inside = rv.inside ∧ mv.after = rv.after ∧ mv.inherent = rv.inherent)
+/-! Projections: the aspects of an expansion a property reads.  The correspondence of a property
+    compares only its aspects, so that a change of the code elsewhere in the output does not
+    break the tie for a property it cannot affect. -/
+
+def normSig (s : Sig) : Sig := { s with itrail := false }
+
+def memberSigs (ms : List GenMember) : List (Option Sig) := ms.map (fun m => m.sig?.map normSig)
+def memberBodies (ms : List GenMember) : List (Option Toks) :=
+  ms.map (fun m => match m with | .fn _ _ b => b | .raw t => some t)
+
+inductive Aspect | attrs | vis | header | sigs | bodies | memberAttrs | orig
+  deriving DecidableEq
+
+def aspectEq (a : Aspect) (mv rv : View) : Bool :=
+  let mt := traitsOf mv.items; let rt := traitsOf rv.items
+  let mi := implsOf mv.items; let ri := implsOf rv.items
+  match a with
+  | .attrs => decide (mt.map (·.attrs) = rt.map (·.attrs) ∧ mi.map (·.attrs) = ri.map (·.attrs))
+  | .vis => decide (mt.map (·.vis) = rt.map (·.vis)) &&
+      decide ((mv.items.filter (fun g => match g with | .raw _ => true | _ => false)) =
+              (rv.items.filter (fun g => match g with | .raw _ => true | _ => false)))
+  | .header =>
+      decide (mt.map (·.ident) = rt.map (·.ident)) && decide (mt.map (·.params) = rt.map (·.params)) &&
+      decide (mt.map (·.colon) = rt.map (·.colon)) && decide (mt.map (·.supertraits) = rt.map (·.supertraits)) &&
+      decide (mt.map (·.preds) = rt.map (·.preds)) &&
+      decide (mi.map (·.params) = ri.map (·.params)) && decide (mi.map (·.traitRef) = ri.map (·.traitRef)) &&
+      decide (mi.map (·.selfTy) = ri.map (·.selfTy)) && decide (mi.map (·.preds) = ri.map (·.preds))
+  | .sigs => decide (mt.map (fun t => memberSigs t.members) = rt.map (fun t => memberSigs t.members) ∧
+                     mi.map (fun m => memberSigs m.members) = ri.map (fun m => memberSigs m.members))
+  | .bodies => decide (mt.map (fun t => memberBodies t.members) = rt.map (fun t => memberBodies t.members) ∧
+                       mi.map (fun m => memberBodies m.members) = ri.map (fun m => memberBodies m.members))
+  | .memberAttrs => decide (mt.map (fun t => t.members.map GenMember.attrs) = rt.map (fun t => t.members.map GenMember.attrs) ∧
+                            mi.map (fun m => m.members.map GenMember.attrs) = ri.map (fun m => m.members.map GenMember.attrs))
+  | .orig => mv.origOk == rv.origOk && decide (mv.inherent = rv.inherent)
+
+def aspectsOf : String → List Aspect
+  | "C01" => [.sigs, .bodies]
+  | "C02" => [.orig]
+  | "C03" => [.sigs, .header]
+  | "C04" => [.header]
+  | "C05" => [.attrs, .header, .bodies]
+  | "C06" => [.header, .sigs, .bodies]
+  | "C07" => [.header, .sigs, .bodies, .vis]
+  | "C08" => [.sigs, .vis, .header]
+  | "C09" => [.attrs, .header, .sigs, .vis, .memberAttrs, .bodies]
+  | "C10" => [.attrs]
+  | "C11" => [.attrs, .sigs]
+  | "C12" => [.sigs, .bodies, .attrs]
+  | "C13" => [.vis]
+  | "C14" => [.bodies, .header, .attrs]
+  | "C16" => [.sigs]
+  | "C18" => [.attrs, .memberAttrs, .sigs]
+  | "C19" => [.header, .attrs, .bodies, .sigs]
+  | _ => [.attrs, .vis, .header, .sigs, .bodies, .memberAttrs, .orig]
+
+def projEq (prop : String) (mv rv : View) : Bool := (aspectsOf prop).all (fun a => aspectEq a mv rv)
 
 def findings (attr : Toks) (item : Item) (view : View) : List String :=
   (if F_C06_send attr item view then ["C06.send"] else []) ++
@@ -52,15 +105,15 @@ def evalAll (v : Variant) (attr : Toks) (item : Item) (input : Toks) (m : Outcom
       let rv := realView rout
       -- the real expansion can be brought into the model's shape only if it parses and the
       -- original region is where it is claimed to be
-      let observable := rv.parsed && (rv.origOk || item.mode == .trait || item.mode == .impl)
+      let observable := rv.parsed
       let stable := synStable item input
-      let k : Option Bool := if observable then some (projEq mv rv) else none
       let row (id : String) (f : View → Bool) : PropRow :=
-        { id := id, k := k, pm := f mv, pr := if observable then some (f rv) else none }
+        { id := id, k := if observable then some (projEq id mv rv) else none,
+          pm := f mv, pr := if observable then some (f rv) else none }
       let rows : List PropRow :=
         [ row "C01" (P_C01 v attr item),
           { id := "C02", k := some (rv.origOk == mv.origOk || !stable),
-            pm := P_C02 item mv, pr := some (!stable || P_C02 item rv) },
+            pm := !stable || P_C02 item mv, pr := some (!stable || P_C02 item rv) },
           row "C03" (P_C03 v attr item),
           row "C04" (P_C04 v attr item),
           row "C05" (P_C05 v attr item),
@@ -68,7 +121,10 @@ def evalAll (v : Variant) (attr : Toks) (item : Item) (input : Toks) (m : Outcom
           row "C07" (P_C07 v attr item),
           row "C08" (P_C08 attr item (metaList info "fns")),
           row "C09" (P_C09 v attr item),
-          row "C10" (P_C10 v attr item),
+          -- the second stage of a concrete-dependency fn: the nested invocation must not mock
+          row "C10" (if (metaGet info "nested").isSome
+                     then (fun view => (traitsOf view.items).all (fun t => mockKinds t == item.attrs.filterMap Attr.mockKind))
+                     else P_C10 v attr item),
           row "C11" (P_C11 v attr item),
           row "C12" (P_C12 v attr item),
           row "C13" (P_C13 attr item),
@@ -79,5 +135,27 @@ def evalAll (v : Variant) (attr : Toks) (item : Item) (input : Toks) (m : Outcom
       let fs := findings attr item (if observable then rv else mv)
       " ".intercalate (rows.map PropRow.show) ++ s!" stable={b3 stable} F={",".intercalate fs}"
   | _, _ => ""
+
+def hexDigit (n : Nat) : Char := if n < 10 then Char.ofNat (48 + n) else Char.ofNat (87 + n)
+def hexOf (s : String) : String :=
+  String.ofList (s.toUTF8.toList.flatMap (fun b => [hexDigit (b.toNat / 16), hexDigit (b.toNat % 16)]))
+
+/-- C15 is about every outcome, not only successful expansions -/
+def evalC15 (attr : Toks) (item : Item) (m : Outcome) (r : Real) : String :=
+  let (rp, rd, parsed) : Bool × Option (List String) × Bool :=
+    match r with
+    | .ok _ rout => (false, none, rout.parsed)
+    | .diag msgs => (false, some msgs, true)
+    | .panic _ => (true, none, true)
+  let (mp, md) : Bool × Option (List String) :=
+    match m with
+    | .ok _ => (false, none)
+    | .diag msg => (false, some [msg])
+    | .synErr => (false, match rd with | some msgs => some msgs | none => some ["<syn>"])   -- syn's message is not modelled
+    | .panic _ => (true, none)
+  let pm := P_C15 attr item mp md true
+  let pr := P_C15 attr item rp rd parsed
+  let msg := match r with | .diag (x :: _) => hexOf x | .panic x => hexOf x | _ => ""
+  s!"C15=1{b3 pm}{b3 pr} msg={msg}"
 
 end Entrait.Obs
